@@ -13,7 +13,7 @@ pub fn meta() -> Meta {
     Meta {
         id: "C12",
         level: "exploration",
-        rule: "paired FASTQ read sets through the real SkaDict::new (in-process) against a brute-force count model: genome g of k+2 letters and a variant g' differing in the middle base of the central window, k in {5,9,31,33} (thorough: + 7, 63), both strand modes. Family A (counts): min-count c=1..6 x every multiplicity pair (a,a') in {0,c-1,c,c+1}^2 for the two central k-mers x every split of each multiplicity between file 1 (forward) and file 2 (reverse complement). Family B (quality): c in 1..3, three quality rules x min-qual in {0,1,20,40} x one designated low-quality base (middle, middle-1, first, last of a k-long read; positions 0, h, h+1, k+1 of a (k+2)-long read) with quality in {Q-1,Q,Q+1} on exactly one of the c copies. Family C: N at every position of the (k+2)-long read, and of a read of 2k+4 letters (k or more valid bases behind the N; also a low-quality base there under the strict rule). Family D: the same through `ska build -f` option parsing (one of the two files with CRLF line ends in two of the four configurations), and a single FASTQ file given as positional argument or as a two-field list line. Family P (k in {5,7,31,33}; thorough + 9, 15, 63): reads holding a k-mer whose arms are reverse complements of each other (X m rc(X), each m; also homopolymer arms A^h m A^h, A^h m T^h, G^h m G^h; bare, with flanks), c=1..3, totals c-1/c/c+1 split between the strands and the files in every way. Family M: several read samples in one `ska build` (a sample seeing a read c times, one seeing it c-1 times plus another read c times, a third), every column must equal the sample built alone, both sample orders. Family E (k in {5,33}; thorough + 7, 31, 63): every multiset of up to three reads drawn from all substrings of length k..k+3, both orientations, of a (k+3)-letter genome and of its one-substitution variant (quick: triples from the genome only), all in file 1 or alternating between the files, c=1..3 (the same k-mer met as first window of one read and as rolled window of another, on either strand); and every pair of such reads with one base of quality Q-1 or Q at every position of the first (k<=7; ends and window middles otherwise; quick: k=5 only), middle and strict rule, c=1..2. One larger data set (~2*10^4 distinct k-mers plus singleton error k-mers) bounds the share of below-threshold k-mers that enter; a 400 kb genome given three times as reads at min-count 3 must give exactly the FASTA builder's dictionary of the genome (4*10^5 distinct k-mers, none lost). Non-trivial = the model's dictionary is non-empty or a k-mer sits exactly at a threshold.".into(),
+        rule: "paired FASTQ read sets through the real SkaDict::new (in-process) against a brute-force count model: genome g of k+2 letters and a variant g' differing in the middle base of the central window, k in {5,9,31,33} (thorough: + 7, 63), both strand modes. Family A (counts): min-count c=1..6 x every multiplicity pair (a,a') in {0,c-1,c,c+1}^2 for the two central k-mers x every split of each multiplicity between file 1 (forward) and file 2 (reverse complement). Family B (quality): c in 1..3, three quality rules x min-qual in {0,1,20,40} x one designated low-quality base (middle, middle-1, first, last of a k-long read; positions 0, h, h+1, k+1 of a (k+2)-long read) with quality in {Q-1,Q,Q+1} on exactly one of the c copies. Family C: N at every position of the (k+2)-long read, and of a read of 2k+4 letters (k or more valid bases behind the N; also a low-quality base there under the strict rule, and an N with a low-quality middle base in the window before or behind it under the middle rule). Family D: the same through `ska build -f` option parsing (one of the two files with CRLF line ends in two of the four configurations), and a single FASTQ file given as positional argument or as a two-field list line. Family P (k in {5,7,31,33}; thorough + 9, 15, 63): reads holding a k-mer whose arms are reverse complements of each other (X m rc(X), each m; also homopolymer arms A^h m A^h, A^h m T^h, G^h m G^h; bare, with flanks), c=1..3, totals c-1/c/c+1 split between the strands and the files in every way. Family M: several read samples in one `ska build` (a sample seeing a read c times, one seeing it c-1 times plus another read c times, a third), every column must equal the sample built alone, both sample orders. Family E (k in {5,33}; thorough + 7, 31, 63): every multiset of up to three reads drawn from all substrings of length k..k+3, both orientations, of a (k+3)-letter genome and of its one-substitution variant (quick: triples from the genome only), all in file 1 or alternating between the files, c=1..3 (the same k-mer met as first window of one read and as rolled window of another, on either strand); and every pair of such reads with one base of quality Q-1 or Q at every position of the first (k<=7; ends and window middles otherwise; quick: k=5 only), middle and strict rule, c=1..2. One larger data set (~2*10^4 distinct k-mers plus singleton error k-mers) bounds the share of below-threshold k-mers that enter; a 400 kb genome given three times as reads at min-count 3 must give exactly the FASTA builder's dictionary of the genome (4*10^5 distinct k-mers, none lost), and the same genome twice plus a copy with a substitution every 40 bases at min-count 2 (3*10^5 k-mers seen once: fewer than 0.1% may enter). Non-trivial = the model's dictionary is non-empty or a k-mer sits exactly at a threshold.".into(),
         assumptions: vec!["an extra entry would only be acceptable as a counting-filter collision; on these inputs none is expected and any extra is reported".into(), "a sample in which nothing reaches the threshold may be refused".into()],
         exhaustive_when_uncapped: true,
     }
@@ -327,6 +327,21 @@ pub fn run(ctx: &Ctx, rep: &mut Report) {
                 lowq.1[pos] = 3;
                 let files = [vec![lowq.clone(), clean.clone()], vec![rc_read(&lowq)]];
                 run_case(rep, &Case { k, rc, c: 2, q: 20, rule: QRule::Strict, files: &files }, "C'");
+                // an N and, (k+1)/2 positions before or behind it (the middle base of the last window before / the first
+                // window behind the N), a low-quality base: middle rule, the two windows have different verdicts
+                for delta in [-((h + 1) as i64), (h + 1) as i64] {
+                    let qpos = pos as i64 + delta;
+                    if qpos < 0 || qpos as usize >= glong.len() {
+                        continue;
+                    }
+                    let mut r2: Read = (glong.clone(), hi(glong.len(), 20));
+                    r2.0[pos] = b'N';
+                    r2.1[qpos as usize] = 3;
+                    let files = [vec![r2.clone()], vec![rc_read(&r2)]];
+                    for c in [1usize, 2] {
+                        run_case(rep, &Case { k, rc, c, q: 20, rule: QRule::Middle, files: &files }, "C''");
+                    }
+                }
                 rep.corner("N_inside_a_long_read");
             }
         }
@@ -665,6 +680,37 @@ pub fn run(ctx: &Ctx, rep: &mut Report) {
             }
             (a, b) => rep.violate("huge set: refused".into(), format!("400 kb genome: FASTA build {:?}, read build {:?}", a.err(), b.err()), json!({"huge": true})),
         }
+        // the same genome at min-count 2: twice in file 1, and in file 2 once with a substitution every 40 bases — the
+        // ~3*10^5 k-mers that cover a substitution are seen once and must stay out (fewer than 0.1% of the distinct
+        // k-mers may enter through filter collisions), every genome k-mer must be in
+        let mut noisy = genome.clone();
+        for p in (17..noisy.len()).step_by(40) {
+            noisy[p] = comp(noisy[p]);
+        }
+        let mut f2 = b"@c\n".to_vec();
+        f2.extend_from_slice(&noisy);
+        f2.extend_from_slice(b"\n+\n");
+        f2.extend_from_slice(&q);
+        f2.push(b'\n');
+        let p2b = scratch::write("c12_huge2b.fastq", &f2);
+        rep.evaluations += 1;
+        rep.nontrivial += 1;
+        rep.corner("large_sample_400kb_with_singletons");
+        match (real::build_dict::<u64>(&fa, k, true), real::build_dict_reads::<u64>(&p1, &p2b, k, true, 2, 20, QRule::Strict)) {
+            (Ok(want), Ok(got)) => {
+                let lost = want.iter().filter(|(a, b)| got.get(*a).map_or(true, |x| set_of(*x).unwrap_or(0) & set_of(**b).unwrap_or(0) != set_of(**b).unwrap_or(0))).count();
+                let extra = got.keys().filter(|a| !want.contains_key(*a)).count() + got.iter().filter(|(a, b)| want.get(*a).map_or(false, |w| w != *b)).count();
+                rep.extra.insert("max_huge_set_singletons_entered".into(), json!(extra));
+                if lost > 0 {
+                    rep.violate("huge set c=2: lost".into(), format!("400 kb genome twice + a noisy copy, min-count 2: {lost} k-mers that reach the count are lost"), json!({"huge": 2}));
+                }
+                if (extra as f64) >= 0.001 * want.len() as f64 {
+                    rep.violate("huge set c=2: extras".into(), format!("400 kb genome twice + a noisy copy, min-count 2: {extra} k-mers seen once entered ({} distinct k-mers reach the count; 0.1% = {})", want.len(), want.len() / 1000), json!({"huge": 2}));
+                }
+            }
+            (a, b) => rep.violate("huge set c=2: refused".into(), format!("400 kb genome: FASTA build {:?}, read build {:?}", a.err(), b.err()), json!({"huge": 2})),
+        }
+        let _ = std::fs::remove_file(&p2b);
         let _ = std::fs::remove_file(&p1);
         let _ = std::fs::remove_file(&p2);
         let _ = std::fs::remove_file(&fa);
